@@ -16,6 +16,7 @@ from __future__ import annotations
 import itertools
 import os
 import time
+import math
 import z3
 
 # ---------------------------------------------------------------------------------------
@@ -749,22 +750,33 @@ class SInt:
             return NotImplemented
         return SBool(self.t != toint(o))
 
+    # int <op> float: CPython compares an int with a finite float EXACTLY (no conversion of the int), so for integer x
+    #   x < f  <=>  x < ceil(f)      x <= f  <=>  x <= floor(f)      x > f  <=>  x > floor(f)      x >= f  <=>  x >= ceil(f)
+    # with floor / ceil of the float computed exactly by math.floor / math.ceil
     def __lt__(self, o):
+        if isinstance(o, float) and math.isfinite(o):
+            return SBool(self.t < z3.IntVal(math.ceil(o)))
         if not _intlike(o):
             return NotImplemented
         return SBool(self.t < toint(o))
 
     def __le__(self, o):
+        if isinstance(o, float) and math.isfinite(o):
+            return SBool(self.t <= z3.IntVal(math.floor(o)))
         if not _intlike(o):
             return NotImplemented
         return SBool(self.t <= toint(o))
 
     def __gt__(self, o):
+        if isinstance(o, float) and math.isfinite(o):
+            return SBool(self.t > z3.IntVal(math.floor(o)))
         if not _intlike(o):
             return NotImplemented
         return SBool(self.t > toint(o))
 
     def __ge__(self, o):
+        if isinstance(o, float) and math.isfinite(o):
+            return SBool(self.t >= z3.IntVal(math.ceil(o)))
         if not _intlike(o):
             return NotImplemented
         return SBool(self.t >= toint(o))
